@@ -368,18 +368,14 @@ def _apply(desc, node, data, ctx, vals, files) -> Tuple[Dict[str, Any], bool]:
     sub = desc.get("sub")
     if kind == "ctx":
         if sub == "rename":
-            v = vals[desc["src"]]
-            if v is not None:
-                ctx[desc["dst"]] = v
-                if desc["src"] not in ctx:
-                    raise MFail("PROCESSOR", "KeyError", "rename source not in context")
-                del ctx[desc["src"]]
+            ctx[desc["dst"]] = vals[desc["src"]]
+            if desc["src"] not in ctx:
+                raise MFail("PROCESSOR", "KeyError", "rename source not in context")
+            del ctx[desc["src"]]
         elif sub == "delete":
-            v = vals[desc["key"]]
-            if v is not None:
-                if desc["key"] not in ctx:
-                    raise MFail("PROCESSOR", "KeyError", "delete key not in context")
-                del ctx[desc["key"]]
+            if desc["key"] not in ctx:
+                raise MFail("PROCESSOR", "KeyError", "delete key not in context")
+            del ctx[desc["key"]]
         else:
             rendered = _leaf(lambda: desc["template"].format(**{k: render(vals[k]) for k, _ in desc["params"]}))
             ctx[desc["out"]] = rendered
